@@ -66,6 +66,7 @@ func execFunctionCall(context *exprContext, expr *grammar.Grammar) error {
 	for _, cn := range expr.BSR.GetAllNTChildren() {
 		for _, c := range cn {
 			children = append(children, &c)
+			break
 		}
 	}
 
@@ -118,6 +119,7 @@ func gatherFunctionArgs(b *bsr.BSR, args *[]*bsr.BSR) {
 	for _, cn := range b.GetAllNTChildren() {
 		for _, c := range cn {
 			children = append(children, &c)
+			break
 		}
 	}
 
